@@ -105,7 +105,7 @@ CHECKS = {
             "exhaustive; no TLA+ model.", "Trusted: rt/verif_rt.c; C12 for data-race freedom.", "4/C11"),
     "C12": ("exploration",
             "ThreadSanitizer build of the real program over generated inputs/configurations with seeded schedule "
-            "perturbation; oracle: no race report",
+            "perturbation, plus helgrind on a subset (stalled-pipe cases TSan's descriptor model hides); oracle: no race report",
             "Compression (both modes), decompression (valid, flood, truncated), -cdf copy and FILE operands run with 2-16 "
             "workers and real parallelism on a ThreadSanitizer build while the runtime injects seeded yields/sleeps at every "
             "synchronisation and I/O point; any ThreadSanitizer report is a violation. Sees only races on executed accesses.",
